@@ -41,8 +41,10 @@ ASSUMED.update({
     "int(str, base)": "int(s, 16) of a non-empty string of hexadecimal digits is its base-16 value (uninterpreted "
                       "function hexval with 0 <= hexval(s) < 16**len(s)); never raises on such a string",
     "str % args": "%-formatting of concrete strings is evaluated; of symbolic arguments it is an opaque string",
-    "functools.reduce": "functools.reduce(f, xs) over a non-empty finite collection returns one of the elements when "
-                        "f always returns one of its two arguments (selection fold); TypeError on an empty collection",
+    "functools.reduce": "functools.reduce(f, xs) over a non-empty finite set with a selecting f (f(a,b) is a or b): the "
+                        "result r is a member; a singleton is returned without calling f; selection-fold lemma: if "
+                        "C(a,b) := 'f(a,b) is a' is asymmetric and negatively transitive on the set (obligations) then "
+                        "not C(x, r) for every other member x (induction over List.foldl)",
     "frozenset of expression values": "equality/hash of Boolean/Rational/String/Set objects is value equality, "
                                       "therefore a frozenset of them is modelled as a set of canonical references "
                                       "(no code under contract compares expression values with `is`)",
@@ -1273,7 +1275,13 @@ Lib.call_exc_method = call_exc_method
 def bi_functools_reduce(self, ctx, fn, it):
     """functools.reduce(f, S) over a non-empty set of objects with a *selecting* f (f(a, b) returns a or b):
        a singleton is returned without calling f; otherwise f is called on pairs of distinct members - either some call
-       raises (witness pair, every path explored) or all complete and the result is some member of S."""
+       raises (witness pair, every path explored) or all complete and the result is some member r of S.
+       Selection-fold lemma (List.foldl over distinct elements, by induction on the prefix): write C(a, b) for "f(a, b)
+       returns a".  If C is asymmetric and negatively transitive on S (two obligations `pre#functools.reduce#...`), then no
+       member beats the result: for all x in S, x != r: not C(x, r)."""
+    from . import loops
+    from .symexec import short
+
     if isinstance(it, Obj) and it.cls.lookup("__iter__") is not None:
         it = self.e.call_function(ctx, it.cls.lookup("__iter__"), [it], {}, dynamic=True)
     if not (isinstance(it, SymSet) and it.elem_sort == V.RefSort):
@@ -1293,10 +1301,45 @@ def bi_functools_reduce(self, ctx, fn, it):
         raise PathEnd()
     r = ctx.fresh("reduced", V.RefSort)
     ctx.assume(z3.Select(it.term, r))
-    if k == 1:  # singleton
-        ctx.assume(z3.ForAll([x], z3.Implies(z3.Select(it.term, x), x == r), patterns=[z3.Select(it.term, x)]))
     res = anyk.wrap(ctx, r)
     self.e.assume_class_range(ctx, res)
+    if k == 1:  # singleton
+        ctx.assume(z3.ForAll([x], z3.Implies(z3.Select(it.term, x), x == r), patterns=[z3.Select(it.term, x)]))
+        return res
+    # every call completes: summarise f on an arbitrary pair of distinct members
+    a, b = ctx.fresh("ra", V.RefSort), ctx.fresh("rb", V.RefSort)
+    bind = loops.Binding(None, [z3.Select(it.term, a), z3.Select(it.term, b), a != b], [a, b],
+                         [z3.Select(it.term, a), z3.Select(it.term, b)])
+    picks = []
+
+    def run():
+        oa, ob = anyk.wrap(ctx, a), anyk.wrap(ctx, b)
+        self.e.assume_class_range(ctx, oa)
+        self.e.assume_class_range(ctx, ob)
+        v = self.e.call(ctx, fn, [oa, ob], {})
+        if not (isinstance(v, Obj) and (v.ref.eq(a) or v.ref.eq(b))):
+            raise EngineLimit("functools.reduce with a function that does not select one of its arguments")
+        picks.append(v.ref.eq(a))
+
+    normal = loops.summarise_block(self.e, ctx, bind, run, lambda: None)
+    if len(normal) != len(picks) or not normal:
+        raise EngineLimit("functools.reduce: cannot summarise the folded function")
+    p, q = z3.FreshConst(V.RefSort, "p"), z3.FreshConst(V.RefSort, "q")
+    guard = lambda u, v: z3.And(z3.Select(it.term, u), z3.Select(it.term, v), u != v)
+    sub = lambda t, u, v: z3.substitute(t, (a, u), (b, v))
+    all_normal = z3.Or(*normal)
+    ctx.assume(z3.ForAll([p, q], z3.Implies(guard(p, q), sub(all_normal, p, q)),
+                         patterns=[z3.MultiPattern(z3.Select(it.term, p), z3.Select(it.term, q))]))
+    first = [n for n, pk in zip(normal, picks) if pk]
+    C = (lambda u, v: sub(z3.Or(*first), u, v)) if first else (lambda u, v: z3.BoolVal(False))
+    c1, c2, c3 = (ctx.fresh("m%d" % i, V.RefSort) for i in (1, 2, 3))
+    dom = z3.And(z3.Select(it.term, c1), z3.Select(it.term, c2), z3.Select(it.term, c3), c1 != c2, c2 != c3, c1 != c3)
+    name = "%s/pre#functools.reduce#selection-order" % short(ctx.func)
+    ctx.oblige(name + ".asymmetric", z3.Implies(dom, z3.Not(z3.And(C(c1, c2), C(c2, c1)))), kind="pre")
+    ctx.oblige(name + ".negatively-transitive",
+               z3.Implies(z3.And(dom, z3.Not(C(c1, c2)), z3.Not(C(c2, c3))), z3.Not(C(c1, c3))), kind="pre")
+    ctx.assume(z3.ForAll([x], z3.Implies(z3.And(z3.Select(it.term, x), x != r), z3.Not(C(x, r))),
+                         patterns=[z3.Select(it.term, x)]))
     return res
 
 
@@ -1314,3 +1357,25 @@ def isinstance_of(self, ctx, v, cls):
 
 
 Engine.isinstance_of = isinstance_of
+
+
+# ---------------------------------------------------------------------------------------------------- truthiness
+_orig_truth = Engine.truth
+
+
+def truth(self, ctx, v):
+    """Truthiness of an object whose static class is only an upper bound: a subclass may define __bool__ (Boolean)."""
+    if isinstance(v, Obj) and not v.exact and v.cls.lookup("__bool__") is None and v.cls.lookup("__len__") is None:
+        for c in v.cls.all_subclasses():
+            m = c.methods.get("__bool__")
+            if m is None:
+                continue
+            classes = [k for k in c.all_subclasses() if k.lookup("__bool__") is m]
+            cond = z3.Or(*[self.tag_fn(v.ref) == self.class_id(k) for k in classes])
+            if ctx.decide(cond):
+                return self.truth(ctx, self.call_function(ctx, m, [Obj(c, False, v.ref, None, ctx)], {}))
+        return True
+    return _orig_truth(self, ctx, v)
+
+
+Engine.truth = truth
